@@ -387,9 +387,9 @@ def run(ctx):
                ("np2-it1-calls3-edits3", dict(NP=2, MAXIT=1, MAXCALLS=3, MAXEDITS=3, COEFS="{1}", DOMS="{1,2,3,4,5,6}"), 5),
                ("np3-it1-calls2-edits1", dict(NP=3, MAXIT=1, MAXCALLS=2, MAXEDITS=1, COEFS="{1}", DOMS="{1,2,3,5}", RNG="{0,2}"), 5)]
     else:
-        mcs = [("np2-it3-calls2-edits1", dict(NP=2, MAXIT=3, MAXCALLS=2, MAXEDITS=1, COEFS="{1,2}", DOMS="{1,2,3,4,5,6}"), 5),
+        mcs = [("np2-it3-calls3-edits1", dict(NP=2, MAXIT=3, MAXCALLS=3, MAXEDITS=1, COEFS="{1,2}", DOMS="{1,2,3,4,5,6}"), 6),
                ("np2-it2-calls3-edits2", dict(NP=2, MAXIT=2, MAXCALLS=3, MAXEDITS=2, COEFS="{1,2}", DOMS="{1,2,3,4,5,6}"), 4),
-               ("np2-it3-calls3-edits0", dict(NP=2, MAXIT=3, MAXCALLS=3, MAXEDITS=0, COEFS="{3,4}", DOMS="{1,2,3,4,5,6}"), 3),
+               ("np2-it3-calls3-edits0", dict(NP=2, MAXIT=3, MAXCALLS=3, MAXEDITS=0, COEFS="{1,2,3,4}", DOMS="{1,2,3,4,5,6}"), 2),
                ("np2-it1-calls4-edits4", dict(NP=2, MAXIT=1, MAXCALLS=4, MAXEDITS=4, COEFS="{1,3}", DOMS="{1,2,3,4,5,6}"), 2),
                ("np3-it2-calls2-edits1", dict(NP=3, MAXIT=2, MAXCALLS=2, MAXEDITS=1, COEFS="{1}", DOMS="{1,2,3,5}", RNG="{0,2}"), 2),
                ("np1-it3-calls3-edits2", dict(NP=1, MAXIT=3, MAXCALLS=3, MAXEDITS=2, COEFS="{1,2,3,4}", DOMS="{1,2,3,4,5,6}"), 1)]
@@ -397,7 +397,7 @@ def run(ctx):
     def mc_one(m):
         label, kw, workers = m
         c = cfg_with(MC_CFG, "MC-%s.cfg" % label, **kw)
-        return run_tlc("SwarmMC.tla", c, workers=workers, timeout=1500 if quick else 14000, xmx="4g")
+        return run_tlc("SwarmMC.tla", c, workers=workers, timeout=1500 if quick else 14000, xmx="8g" if (workers >= 6 and not quick) else "4g")
 
     # ---- 2. spec -> code: scripts per abstract edge that completes a call
     if quick:
